@@ -122,6 +122,10 @@ func (c *Content) WithFileInfoDefaults(umask fs.FileMode, mtime time.Time) *Cont
 	}
 	if cc.FileInfo == nil {
 		cc.FileInfo = &ContentFileInfo{}
+	} else {
+		// the defaults below must not be written into the caller's file info
+		fileInfo := *cc.FileInfo
+		cc.FileInfo = &fileInfo
 	}
 	if cc.FileInfo.Owner == "" {
 		cc.FileInfo.Owner = "root"
